@@ -143,6 +143,8 @@ class FuncVal:
         self.qualname = qualname
         self.cls = cls      # defining class for methods (super())
         self.name = getattr(node, 'name', '<lambda>')
+        self.kind = None    # 'static' | 'class' | 'property' (decorators)
+        self.unknown_decorator = None
 
     def __deepcopy__(self, memo):
         return self
@@ -955,6 +957,12 @@ class Interp:
             c, m = obj.cls.find(name)
             if m is not None:
                 if isinstance(m, FuncVal):
+                    if m.kind == 'static':
+                        return m
+                    if m.kind == 'class':
+                        return BoundMethod(obj.cls, m)
+                    if m.kind == 'property':
+                        return self.call_func(m, [obj], {}, self_obj=obj)
                     return BoundMethod(obj, m)
                 return m
             if obj.cls.builtin or any(k.builtin and k.name != 'object' and k.name != 'ABC' for k in obj.cls.mro()):
@@ -977,6 +985,10 @@ class Interp:
                 return obj.name
             c, m = obj.find(name)
             if m is not None:
+                if isinstance(m, FuncVal) and m.kind == 'class':
+                    return BoundMethod(obj, m)
+                if isinstance(m, FuncVal) and m.kind == 'property':
+                    raise Unsupported('property object %s.%s' % (obj.name, name))
                 return m
             py_raise('AttributeError', name)
         if isinstance(obj, SymDictBase):
@@ -1542,6 +1554,8 @@ class Interp:
         c = self.contracts.get(f.qualname)
         if c is not None:
             return c(self, f, args, kwargs)
+        if f.unknown_decorator:
+            raise Unsupported('function %s under decorator %s' % (f.qualname, f.unknown_decorator))
         return self.inline(f, args, kwargs, self_obj)
 
     def inline(self, f, args, kwargs, self_obj=None):
@@ -1856,9 +1870,27 @@ class Interp:
                 if h:
                     h(self, item, env)
 
+    @staticmethod
+    def _decorate(fv, node):
+        """staticmethod / classmethod / property / abc.abstractmethod are modelled; a function under any other decorator
+        is not the function its body describes: calling it is outside the subset"""
+        for d in getattr(node, 'decorator_list', []):
+            name = ast.unparse(d)
+            if name == 'staticmethod':
+                fv.kind = 'static'
+            elif name == 'classmethod':
+                fv.kind = 'class'
+            elif name == 'property':
+                fv.kind = 'property'
+            elif name in ('abc.abstractmethod', 'abstractmethod'):
+                pass
+            else:
+                fv.unknown_decorator = name
+        return fv
+
     def s_FunctionDef(self, s, env):
         q = env.vars.get('__qualname__', '')
-        env.vars[s.name] = FuncVal(s, env, (q + '.' if q else '') + s.name)
+        env.vars[s.name] = self._decorate(FuncVal(s, env, (q + '.' if q else '') + s.name), s)
 
     def s_ClassDef(self, s, env):
         bases = []
@@ -1874,7 +1906,7 @@ class Interp:
         cenv = Env(env, {'__qualname__': (q + '.' if q else '') + s.name})
         for st in s.body:
             if isinstance(st, ast.FunctionDef):
-                cls.methods[st.name] = FuncVal(st, env, cenv.vars['__qualname__'] + '.' + st.name, cls=cls)
+                cls.methods[st.name] = self._decorate(FuncVal(st, env, cenv.vars['__qualname__'] + '.' + st.name, cls=cls), st)
             elif isinstance(st, ast.Expr) and isinstance(st.value, ast.Constant):
                 pass
             elif isinstance(st, ast.Pass):
